@@ -6,10 +6,10 @@ import "github.com/redis/rueidis/internal/cmds"
 
 // Export wrappers for the pipe-observation family of the verification harness (properties C01 C26 C27 C33).
 
-// VerifMsgView exposes the raw shape of a RedisMessage so that the harness can render a reply tree canonically and
+// VerifPipeMsgView exposes the raw shape of a RedisMessage so that the harness can render a reply tree canonically and
 // compare it with what the fake server sent: the RESP type byte, the text (strings, errors, doubles, big numbers),
 // the integer (integers, booleans) and the children (arrays, sets, maps as alternating key/value, pushes).
-func VerifMsgView(m RedisMessage) (typ byte, str string, n int64, vals []RedisMessage) {
+func VerifPipeMsgView(m RedisMessage) (typ byte, str string, n int64, vals []RedisMessage) {
 	switch m.typ {
 	case typeArray, typeMap, typeSet, typePush:
 		return m.typ, "", 0, m.values()
@@ -29,5 +29,5 @@ func VerifQueueType() string {
 	return "ring"
 }
 
-// VerifBuilder returns a command builder like the one of a single (non-cluster) client.
-func VerifBuilder() Builder { return cmds.NewBuilder(cmds.NoSlot) }
+// VerifPipeBuilder returns a command builder like the one of a single (non-cluster) client.
+func VerifPipeBuilder() Builder { return cmds.NewBuilder(cmds.NoSlot) }
